@@ -102,17 +102,17 @@ CLAIMED = {
     "C18": dict(
         technique="machine-checked proof in Coq (designspace axis range contains every master; non-negative weighted sums are monotone, hence interpolated clip boxes contain interpolated geometry on an axis) + real CLI multi-master builds instantiated at master and intermediate locations",
         category="other",
-        text="Partial by nature: interpolation is ufo2ft.compileVariableTTF / fontTools.varLib. Proved: the axis range written to the designspace contains every master position; for any number of masters and non-negative weights an edge-wise inequality between master values survives interpolation (the convexity argument for 'the clip box in force contains the interpolated geometry' on one axis, assuming the engine interpolates piecewise linearly between adjacent masters). End to end through the real CLI: two- and three-master configurations with structurally identical sources are built; the variable font is instantiated with fontTools' instancer at every master location and compared (COLR picture, advance, clip box evaluated from COLR's own variation store) with the static CLI build of that master; at intermediate locations the interpolated clip box must contain the interpolated outlines; masters with different source sets must fail.",
+        text="Partial by nature: interpolation is ufo2ft.compileVariableTTF / fontTools.varLib. Proved: the axis range written to the designspace contains every master position; for any number of masters and non-negative weights an edge-wise inequality between master values survives interpolation (the convexity argument for 'the clip box in force contains the interpolated geometry' on one axis, assuming the engine interpolates piecewise linearly between adjacent masters). End to end through the real CLI: two- and three-master configurations with structurally identical sources are built; the variable font is instantiated with fontTools' instancer at every master location and compared (COLR picture, advance, clip box evaluated from COLR's own variation store) with the static CLI build of that master; at intermediate locations the interpolated clip box must contain the interpolated outlines; masters with different source sets must fail. Cases include a slant axis whose default 0 is not the lowest position, two axes declared out of tag order, and the un-instanced default location against the default master.",
         ref="DESIGN.md 8 C18",
     ),
     "C19": dict(
         technique="machine-checked proof in Coq (isometry invariance of the exact normal form over any field; reuse-is-taken theorem on the cache model) + end-to-end count of shared outlines in built fonts",
-        text="Unbounded theorems over any field: the exact normal form used to recognise shapes (first significant vector to (1,0), first significant y to 1) is invariant under every rotation and reflection (c^2+s^2=1), norms that drive the significance thresholds are preserved, translations do not enter; on the cache model reuse is taken whenever a donor with the same normal form exists and the recogniser returns a representable affine, and only tolerance -1 disables it. End to end: fonts built from a few structurally different base shapes and congruent copies (exact grid isometries and generic angles) in glyf_colr_1, glyf_colr_0 and picosvg: every copy must draw from one outline glyph / one <path>, and with -1 all are separate. Known finding F14: picosvg snaps the normal form to multiples of tolerance/10, so copies whose normal form has a coordinate on a rounding boundary are missed.",
+        text="Unbounded theorems over any field: the exact normal form used to recognise shapes (first significant vector to (1,0), first significant y to 1) is invariant under every rotation and reflection (c^2+s^2=1), norms that drive the significance thresholds are preserved, translations do not enter; on the cache model reuse is taken whenever a donor with the same normal form exists and the recogniser returns a representable affine, and only tolerance -1 disables it. End to end: fonts built from a few structurally different base shapes and congruent copies (exact grid isometries and generic angles) in glyf_colr_1, glyf_colr_0 and picosvg: every copy must draw from one outline glyph / one <path>, and with -1 all are separate. Known finding F14: picosvg snaps the normal form to multiples of tolerance/10, so copies whose normal form has a coordinate on a rounding boundary are missed. Sharing is also checked after a re-run in a directory built with the opposite setting and next to a configuration over the same files that asks for the opposite.",
         ref="DESIGN.md 8 C19",
     ),
     "C20": dict(
         technique="machine-checked proof in Coq (flag > file > default for every option type; the colour-format table regenerated from the live modules equals the documented one, and the option-path table regenerated from config.py by an ast translator is complete, both by vm_compute) + real CLI builds observing each option in the written font",
-        text="Theorems: the resolution rule picks the flag if given, else the file value, else the default; the live table of the 13 colour formats (input kinds, OT-SVG-ness, outline flavour, has_* predicates) is exactly the documented table - re-checked against the source on every run (this theorem failed on the unchanged tree and exposed is_ot_svg being always False: fixed, F15); the option-path table (one row per FontConfig field, regenerated from config.py's text by a fail-closed ast translator) shows for each of the 23 documented options a flag of the documented kind whose unset value is None, the key written by config.write, the _pop_flag read in config.load (whose body is the modelled rule), and the keyword handed to FontConfig - no field left out, nothing else written. End to end through the real CLI: every observable option is given by file, by flag and by both with different values, and its observable is read from the written font (name, head, hhea, OS/2 incl. fsSelection bit 7, hmtx, post, table tags and COLR version, file name and outline flavour, ClipList edges, CBLC/CBDT strike size, SVG text, glyph placement under --transform, reuse on/off, clipping) or from build.ninja for compression options; a build without options must show the documented defaults; pairs of configurations in one invocation must equal the fonts built alone. Found and fixed: picosvg keyed by source (F5), --reuse_tolerance -1 crashed the CLI (F16); known: bitmap intermediates keyed by name (F5b).",
+        text="Theorems: the resolution rule picks the flag if given, else the file value, else the default; the live table of the 13 colour formats (input kinds, OT-SVG-ness, outline flavour, has_* predicates) is exactly the documented table - re-checked against the source on every run (this theorem failed on the unchanged tree and exposed is_ot_svg being always False: fixed, F15); the option-path table (one row per FontConfig field, regenerated from config.py's text by a fail-closed ast translator) shows for each of the 23 documented options a flag of the documented kind whose unset value is None, the key written by config.write, the _pop_flag read in config.load (whose body is the modelled rule), and the keyword handed to FontConfig - no field left out, nothing else written. End to end through the real CLI: every observable option is given by file, by flag and by both with different values, and its observable is read from the written font (name, head, hhea, OS/2 incl. fsSelection bit 7, hmtx, post, table tags and COLR version, file name and outline flavour, ClipList edges, CBLC/CBDT strike size, SVG text, glyph placement under --transform, reuse on/off, clipping) or from build.ninja for compression options; a build without options must show the documented defaults; pairs of configurations in one invocation must equal the fonts built alone. Found and fixed: picosvg keyed by source (F5), --reuse_tolerance -1 crashed the CLI (F16); known: bitmap intermediates keyed by name (F5b). Re-run jobs (the option changed between two invocations in one build directory), keep_glyph_names in the CFF/CFF2 flavours; known finding F22: a user's fea_file never reaches the font through the command line.",
         ref="DESIGN.md 8 C20",
     ),
 }
